@@ -1,7 +1,7 @@
 (* C38 — main theorems about callbacks and timeouts, for every program and every fuel. *)
 From Coq Require Import List ZArith Arith Bool Lia Permutation Sorted.
 Import ListNotations.
-From TV Require Import C38.Model C38.Spec C38.HeapProofs C38.Steps C38.Invariants.
+From TV Require Import C38.Model C38.Spec C38.HeapProofs C38.Steps C38.Invariants C38.LogProofs C38.FutProofs.
 Local Open Scope Z_scope.
 
 Lemma arrivals_run_order_id : forall l, arrivals_run_order l = l.
@@ -31,16 +31,36 @@ Proof.
   destruct c; simpl; intro H; inversion H; subst; [apply Inv_init_prog|apply Inv_init_sync].
 Qed.
 
-(* whatever way the loop ends (idle or stopped), the final trace is the trace of a state satisfying the invariant *)
+Lemma ntl_init c s0 : init_of c = Some s0 -> ntl s0.
+Proof. destruct c as [b|b [t|]|]; simpl; intro H; inversion H; subst; reflexivity. Qed.
+
+Lemma Inv2_init c s0 : init_of c = Some s0 -> Inv2 [] s0.
+Proof.
+  destruct c; simpl; intro H; inversion H; subst; [apply Inv2_init_prog|apply Inv2_init_sync].
+Qed.
+
+(* whatever way the loop ends (idle or stopped), the final trace is the trace of a state satisfying the invariants *)
+Lemma run_loop_Inv12 c s0 fuel s e :
+  init_of c = Some s0 -> run_loop fuel s0 = (s, e) -> e <> OutOfFuel ->
+  exists s1, Inv [] s1 /\ Inv2 [] s1 /\ trace s1 = trace s /\
+    (e = Idle -> ready s1 = [] /\ heap s1 = []) /\
+    futs s1 = futs s /\ cell s1 = cell s /\ tcalled s1 = tcalled s.
+Proof.
+  intros HI HR NE. pose proof (Inv_init _ _ HI) as I1. pose proof (Inv2_init _ _ HI) as I2.
+  apply run_loop_steps in HR; [|eapply ntl_init; eauto]. destruct e.
+  - destruct HR as (s1 & A & B & C & D & E1 & E2 & E3). exists s1.
+    destruct (asteps_preserve2 _ _ A I1 I2) as [J1 J2].
+    split; [exact J1|]. split; [exact J2|]. split; [exact D|]. split; [auto|]. auto.
+  - exists s. destruct (asteps_preserve2 _ _ HR I1 I2) as [J1 J2].
+    split; [exact J1|]. split; [exact J2|]. split; [reflexivity|]. split; [intro X; discriminate X|auto].
+  - congruence.
+Qed.
+
 Lemma run_loop_Inv c s0 fuel s e :
   init_of c = Some s0 -> run_loop fuel s0 = (s, e) -> e <> OutOfFuel ->
   exists s1, Inv [] s1 /\ trace s1 = trace s /\ (e = Idle -> ready s1 = [] /\ heap s1 = []).
 Proof.
-  intros HI HR NE. apply Inv_init in HI. apply run_loop_steps in HR. destruct e.
-  - destruct HR as (s1 & A & B & C & D). exists s1. split; [|split; auto].
-    apply (asteps_preserve _ _ A). exact HI.
-  - exists s. split; [|split; auto; discriminate]. apply (asteps_preserve _ _ HR). exact HI.
-  - congruence.
+  intros HI HR NE. destruct (run_loop_Inv12 _ _ _ _ _ HI HR NE) as (s1 & A & _ & B & C & _). eauto.
 Qed.
 
 Lemma ctr_eq s1 s : trace s1 = trace s -> ctr s1 = ctr s.
@@ -70,27 +90,95 @@ Theorem timeouts_safety c s0 fuel s e :
   NoDup (runs RTo (ctr s)) /\
   (forall tr1 j l tr2, ctr s = tr1 ++ ERun j RTo l :: tr2 ->
      ~ In (ERm j) tr1 /\ ~ In j (runs RTo tr1) /\
-     exists d w, In (ESt j d w) tr1 /\ d <= clock_of tr1 /\
-       forall i di wi, In (ESt i di wi) tr1 -> ~ In i (runs RTo tr1) -> ~ In (ERm i) tr1 -> w <= wi) /\
-  (forall tr1 i d w tr2, ctr s = tr1 ++ ESt i d w :: tr2 -> w = Z.max (clock_of tr1) d) /\
-  (forall i d w d' w', In (ESt i d w) (ctr s) -> In (ESt i d' w') (ctr s) -> d = d' /\ w = w').
+     exists d, In (ESt j d) tr1 /\ d <= clock_of tr1 /\
+       forall i di, In (ESt i di) tr1 -> In i (old_ids tr1) ->
+                    ~ In i (runs RTo tr1) -> ~ In (ERm i) tr1 -> d <= di) /\
+  (forall i d d', In (ESt i d) (ctr s) -> In (ESt i d') (ctr s) -> d = d').
 Proof.
   intros HI HR NE. destruct (run_loop_Inv _ _ _ _ _ HI HR NE) as (s1 & I1 & T & _).
-  rewrite <- (ctr_eq _ _ T). destruct I1. split; [|split; [|split]].
+  rewrite <- (ctr_eq _ _ T). destruct I1. split; [|split].
   - eapply NoDup_app_l; eauto.
   - intros tr1 j l tr2 E. exact (v_P tr1 (ERun j RTo l) tr2 E).
-  - intros tr1 i d w tr2 E. exact (v_P tr1 (ESt i d w) tr2 E).
   - intros. eapply st_unique; eauto.
 Qed.
 
 Theorem timeouts_complete c s0 fuel s :
   init_of c = Some s0 -> run_loop fuel s0 = (s, Idle) ->
-  forall i d w, In (ESt i d w) (ctr s) -> In i (runs RTo (ctr s)) \/ In (ERm i) (ctr s).
+  forall i d, In (ESt i d) (ctr s) -> In i (runs RTo (ctr s)) \/ In (ERm i) (ctr s).
 Proof.
-  intros HI HR i d w H. destruct (run_loop_Inv _ _ _ _ _ HI HR) as (s1 & I1 & T & E); [discriminate|].
+  intros HI HR i d H. destruct (run_loop_Inv _ _ _ _ _ HI HR) as (s1 & I1 & T & E); [discriminate|].
   destruct (E eq_refl) as [R HP]. rewrite <- (ctr_eq _ _ T) in *. destruct I1.
   assert (Hi : In i (st_ids (ctr s1))) by (apply in_st_ids; eauto).
   destruct (v_to_cover i Hi) as [A|[A|A]]; auto.
   - rewrite HP, R in A. simpl in A. contradiction.
   - right. apply v_cancel. exact A.
+Qed.
+
+(* old_ids: exactly the timeouts scheduled before the last iteration mark *)
+Theorem old_young_partition tr : old_ids tr ++ young_ids tr = st_ids tr.
+Proof. apply old_young_st. Qed.
+
+(* ---------- errors ---------- *)
+Lemma LOK_init c s0 : init_of c = Some s0 -> exists k, LOK k s0.
+Proof.
+  destruct c; simpl; intro H; inversion H; subst; exists None.
+  - reflexivity.
+  - unfold LOK, init_sync. destruct timeout; reflexivity.
+Qed.
+
+Theorem errors_logged c s0 fuel s e :
+  init_of c = Some s0 -> run_loop fuel s0 = (s, e) ->
+  (forall tr1 i x tr2, ctr s = tr1 ++ EEnd i (EndRaise x) :: tr2 -> last_kind tr1 <> Some RFn ->
+     exists tr3, tr2 = ELog i :: tr3) /\
+  (forall tr1 i tr2, ctr s = tr1 ++ ELog i :: tr2 -> exists tr0 x, tr1 = tr0 ++ [EEnd i (EndRaise x)]).
+Proof.
+  intros HI HR. destruct (LOK_init _ _ HI) as (k & L).
+  destruct (run_loop_LOK _ _ _ _ _ HR L) as (k' & L'). eapply log_discipline; eauto.
+Qed.
+
+(* ---------- futures ---------- *)
+Theorem future_callbacks_later_iteration c s0 fuel s e :
+  init_of c = Some s0 -> run_loop fuel s0 = (s, e) -> e <> OutOfFuel ->
+  (forall tr1 i l tr2, ctr s = tr1 ++ ERun i RFut l :: tr2 ->
+     exists f, aged_after (EAf i f) tr1 /\ exists how v, aged_after (ERs f how v) tr1) /\
+  (forall tr1 f how v tr2, ctr s = tr1 ++ ERs f how v :: tr2 -> ~ resolved f tr1).
+Proof.
+  intros HI HR NE. destruct (run_loop_Inv12 _ _ _ _ _ HI HR NE) as (s1 & _ & I2 & T & _).
+  rewrite <- (ctr_eq _ _ T). destruct I2. split.
+  - intros tr1 i l tr2 E. exact (w_P tr1 (ERun i RFut l) tr2 E).
+  - intros tr1 f how v tr2 E. exact (w_P tr1 (ERs f how v) tr2 E).
+Qed.
+
+(* the state of a future at the end of the run is what the trace says *)
+Theorem future_state_matches_trace c s0 fuel s e :
+  init_of c = Some s0 -> run_loop fuel s0 = (s, e) -> e <> OutOfFuel ->
+  forall f, match fget (futs s) f with
+            | FPending _ => ~ resolved f (ctr s)
+            | FOk (Some v) => In (ERs f 0 v) (ctr s)
+            | FExc (XUser y) => In (ERs f 1 y) (ctr s)
+            | FCancelled => In (ERs f 2 0) (ctr s)
+            | _ => False
+            end.
+Proof.
+  intros HI HR NE f. destruct (run_loop_Inv12 _ _ _ _ _ HI HR NE) as (s1 & _ & I2 & T & _ & F & _).
+  rewrite <- (ctr_eq _ _ T), <- F. destruct I2. apply w_state.
+Qed.
+
+(* run_sync: what the result says about the future the function returned (the cell) *)
+Theorem run_sync_result_vs_trace b timeout fuel s e :
+  run_loop fuel (init_sync b timeout) = (s, e) -> e <> OutOfFuel ->
+  forall f, cell s = Some (CUser f) ->
+    match sync_result_of s e with
+    | RRet (Some v) => In (ERs f 0 v) (ctr s)
+    | RExc (XUser y) => In (ERs f 1 y) (ctr s)
+    | RTimeout => tcalled s = true /\ (In (ERs f 2 0) (ctr s) \/ ~ resolved f (ctr s))
+    | RStopped | RIdle => tcalled s = false /\ (In (ERs f 2 0) (ctr s) \/ ~ resolved f (ctr s))
+    | _ => False
+    end.
+Proof.
+  intros HR NE f C.
+  pose proof (future_state_matches_trace (ISync b timeout) _ fuel s e eq_refl HR NE f) as W.
+  unfold sync_result_of. rewrite C. destruct e; [| |congruence];
+    destruct (fget (futs s) f) as [cbs|[v|]|[y| |]|]; auto; try contradiction;
+    destruct (tcalled s); auto.
 Qed.
